@@ -136,7 +136,8 @@ pub(crate) fn string(input: &[u8]) -> IResult<&[u8], Cow<'_, str>> {
             }
         }
     }
-    if i > 1 {
+    // the string must be terminated by a closing quote, and it can be empty.
+    if i < input.len() {
         if escapes == 0 {
             if let Ok(s) = std::str::from_utf8(&input[1..i]) {
                 return Ok((&input[i + 1..], Cow::Borrowed(s)));
